@@ -13,7 +13,7 @@ Definition words (ws : list Z) : bool := forallb in_u64 ws.
 Definition oin (f : Z -> bool) (o : option Z) : bool := match o with Some x => f x | None => true end.
 
 Definition wf_consts (c : consts) : bool :=
-  in_u64 (c_prep_actions c) && (1 <=? c_min c) && (c_min c <=? c_max c) && (c_max c <=? MAX_MONEY_Z).
+  in_u64 (c_prep_actions c) && (0 <=? c_min c) && (c_min c <=? c_max c) && (c_max c <=? MAX_MONEY_Z).
 Definition wf_ev (e : evidence) : bool :=
   oin in_u64 (e_source e) && oin in_u64 (e_dest e) && oin (in_range 0 MAX_MONEY_Z) (e_value e).
 
